@@ -26,6 +26,7 @@
 import AITB.Model.Num
 import AITB.Model.MDP
 import AITB.Model.Prune
+import AITB.Model.Interp
 import AITB.Gen.Constants
 import AITB.Gen.C03Src
 
@@ -309,5 +310,35 @@ def backupCertOK (m : POMDP) (a : Nat) (α : Vec) (cands : Array Vec) (idx : Lis
 def certChain (m : POMDP) (δ : Rat) : Array Vec → List (Nat × Vec × List Nat) → Option (Array Vec)
   | cands, [] => some cands
   | cands, (a, α, idx) :: rest => if backupCertOK m a α cands idx δ then certChain m δ (cands.push α) rest else none
+
+
+/-! ## bestPromisingAction<false> as written: per-action value through `sawtoothInterpolation` (the C12 model, reading = the source now) -/
+
+/-- `std::get<0>(sawtoothInterpolation(x, ubQ, ubV))`; `none` = the C12 model makes no prediction -/
+def sawVal (m : POMDP) (Q : Mat) (pts : Array (Vec × Rat)) (x : Vec) : Option Rat :=
+  (AITB.Interp.sawtooth AITB.Interp.srcVariant x.toList (Q.toList.map (·.toList)) m.A (pts.toList.map (·.1.toList)) (pts.toList.map (·.2))).map (·.value)
+
+/-- the `sum` of the observation loop after the first `n` observations (`continue` on `checkEqualSmall(prob, 0)`) -/
+def sumSaw (m : POMDP) (Q : Mat) (pts : Array (Vec × Rat)) (b : Vec) (a : Nat) : Nat → Option Rat
+  | 0 => some 0
+  | n+1 => match sumSaw m Q pts b a n with
+    | none => none
+    | some s =>
+      let nb := bstepV m b a n
+      if checkEqualSmall (mass m.S nb.get) 0 then some s else (sawVal m Q pts nb).map (fun t => s + t)
+
+/-- `qvals[a]` -/
+def promisingActSaw (m : POMDP) (Q : Mat) (pts : Array (Vec × Rat)) (b : Vec) (a : Nat) : Option Rat :=
+  (sumSaw m Q pts b a m.O).map (fun s => rew m b.get a + m.γ * s)
+
+/-- running maximum of `qvals[0..n]` (`none` as soon as one entry has no prediction) -/
+def maxSaw (m : POMDP) (Q : Mat) (pts : Array (Vec × Rat)) (b : Vec) : Nat → Option Rat
+  | 0 => promisingActSaw m Q pts b 0
+  | n+1 => match maxSaw m Q pts b n, promisingActSaw m Q pts b (n+1) with
+    | some x, some y => some (if x < y then y else x)
+    | _, _ => none
+
+/-- `qvals.maxCoeff()` -/
+def bestPromisingSaw (m : POMDP) (Q : Mat) (pts : Array (Vec × Rat)) (b : Vec) : Option Rat := maxSaw m Q pts b (m.A - 1)
 
 end AITB.POMDP3
